@@ -2,6 +2,7 @@ pub mod c03;
 pub mod c04;
 pub mod c05;
 pub mod c06;
+pub mod c0809;
 pub mod c10;
 pub mod c11;
 pub mod c12;
@@ -16,6 +17,8 @@ pub fn by_id(id: &str) -> Option<Box<dyn Prop>> {
         "C04" => Some(Box::new(c04::C04)),
         "C05" => Some(Box::new(c05::C05)),
         "C06" => Some(Box::new(c06::C06)),
+        "C08" => Some(Box::new(c0809::C08)),
+        "C09" => Some(Box::new(c0809::C09)),
         "C10" => Some(Box::new(c10::C10)),
         "C11" => Some(Box::new(c11::C11)),
         "C12" => Some(Box::new(c12::C12)),
